@@ -270,14 +270,25 @@ func (l *sequenceListener) ExitWildcardAS(c *sequence.WildcardASContext) {
 	l.push(re)
 }
 
+// normalizeAS returns the canonical text form of the AS number, i.e., the form
+// used in the textual path representation that the expression is matched
+// against. Text that does not parse as an AS number is returned unchanged.
+func normalizeAS(s string) string {
+	as, err := addr.ParseAS(s)
+	if err != nil {
+		return s
+	}
+	return as.String()
+}
+
 func (l *sequenceListener) ExitLegacyAS(c *sequence.LegacyASContext) {
-	re := c.GetText()[1:]
+	re := normalizeAS(c.GetText()[1:])
 	//fmt.Printf("LegacyAS: %s RE: %s\n", c.GetText(), re)
 	l.push(re)
 }
 
 func (l *sequenceListener) ExitAS(c *sequence.ASContext) {
-	re := c.GetText()[1:]
+	re := normalizeAS(c.GetText()[1:])
 	//fmt.Printf("AS: %s RE: %s\n", c.GetText(), re)
 	l.push(re)
 }
